@@ -185,6 +185,8 @@ func runC03(c *eng.Ctx, thorough bool) {
 	}
 	runC03Gaps2(c)
 	runC03Gaps3(c)
+	// templating of identity values decides which rules a policy contributes: shared with C02.7
+	runC02Gaps3(c, "C03.14")
 }
 
 // appendedAllocs: the local objects whose address is an element of the
